@@ -292,7 +292,7 @@ theorem Inv.missingFeatures (h : Inv jid U NR p c) (dp : DP p) (hy : p.y = none)
     · have := h.h.one _ (List.mem_append.2 (Or.inr b')) k' hk' nk nk' (hxn _) (hxn _)
       have hk3 := h.h.idk k b'
       rw [this, hk'f] at hk3
-      rcases hk3 with e | e | e <;> cases e
+      rcases hk3 with e | e | e | e <;> cases e
   refine (h2.authTop ⟨hnil, hnn, rfl, by show p.pb ≠ .fresh; rw [← h.f.ps]; exact hps, dp.sb, rfl⟩ ha).repar _
     rfl rfl rfl rfl (Or.inr rfl) rfl rfl (fun _ => dp.rb) (fun _ => dp.rpb)
 
